@@ -783,10 +783,17 @@ def oracle(case, bare, obs):
             if pw in text or b64 in text:
                 out.append(({'kind': 'password_leak', 'where': where, 'creds_type': case['creds']},
                             {'where': where}))
+    diverged = False
     for i, (c, b, o) in enumerate(zip(case['calls'], bare['calls'], obs['calls'])):
+        if diverged:
+            # an earlier call on this connection already had a different outcome (reported above): the two
+            # connections are no longer in the same state (e.g. the pull-support flags Iter… learns), so later
+            # differences are consequences, not new failures
+            break
         icls = input_class(c, b)
         base = {'input_class': icls, 'tcr': tcr_on, 'log': log_on, 'observed': o['outcome'].get('exc', 'ok')}
         if not same_outcome(b, o):
+            diverged = True
             out.append((dict(base, kind='outcome_changed', bare=b['outcome'].get('exc', 'ok')),
                         {'call': i, 'op': c['op'], 'bare': b['outcome'], 'observed': o['outcome'], 'response': c['tag']}))
         if c['op'] in ITER_OPS:
